@@ -23,6 +23,13 @@ func TestNoDualOwnership848Scarce(t *testing.T) {
 	noDualOwnership(t, wl.GroupFocus{Only848: true, Scarce: true, SlowRevoke: true})
 }
 
+// TestNoDualOwnershipCoopMulti searches the incremental protocols with members that consume
+// two or three topics of different sizes: one rebalance then takes some partitions of one topic
+// away while the member's share of another topic changes too.
+func TestNoDualOwnershipCoopMulti(t *testing.T) {
+	noDualOwnership(t, wl.GroupFocus{CoopMulti: true})
+}
+
 func noDualOwnership(t *testing.T, focus wl.GroupFocus) {
 	rapid.Check(t, func(rt *rapid.T) {
 		plan := wl.GenGroupPlanF(rt, focus)
